@@ -1,20 +1,247 @@
-(* C19 — property theorems (statements closed by `exact <lemma>`). *)
+(* C19 — property theorems about the model of ibldsp.utils.sync_timestamps
+   (coq/C19/Model.v).  Statements closed by `exact <lemma>` + Print Assumptions.
+
+   What is NOT here (measured by harness/pC19.py instead, see pC19.notes.md):
+   that the binned cross-correlation + parabolic_max delivers a coarse offset
+   delta_t satisfying the separation hypotheses below, and the size of the
+   held-out error / drift error in the presence of jitter.  All soundness /
+   completeness theorems are therefore `_partial` with respect to the property:
+   they take the quality of delta_t (resp. of the first fitted map) as a
+   hypothesis.
+
+   Units: the first pass works on integer clock ticks (tbin, delta_t and all
+   times are integer multiples of one tick, any resolution); from the fit
+   onwards times are rationals `tq den t = t / den`. *)
 From Coq Require Import ZArith QArith Qabs List Bool.
 From IBL.C19 Require Import Model Proofs.
 Import ListNotations.
-Open Scope Q_scope.
 
-(* "No event is paired twice" does NOT follow from the exclusion logic alone:
-   with a single candidate (`inds.size == 1`) the already-used partners are not
-   consulted.  Two a-events closer than 2*tbin to each other can both be paired
-   with the same b-event. *)
-Theorem C19_first_pass_injective_refuted :
-  exists tbin delta tsa tsb m1 m2 j,
-    m1 <> m2 /\ (0 <= j)%Z /\
-    nth m1 (first_pass tbin delta tsa tsb) (-1)%Z = j /\
-    nth m2 (first_pass tbin delta tsa tsb) (-1)%Z = j.
+(* ------------------------------------------------------------------------- *)
+(* least squares / fitted map                                                 *)
+(* ------------------------------------------------------------------------- *)
+
+(* np.polyfit(x, y, 1) on points lying exactly on y = s x + c with at least two
+   distinct abscissae returns exactly (s, c) — any number of points. *)
+Theorem C19_polyfit_exact_affine : forall (pts : list (Q * Q)) (s c : Q),
+  Forall (fun p => snd p == s * fst p + c)%Q pts ->
+  (exists p q, In p pts /\ In q pts /\ ~ (fst p == fst q)%Q) ->
+  exists s' c', polyfit1 pts = Some (s', c') /\ (s' == s)%Q /\ (c' == c)%Q.
+Proof. exact polyfit_exact_affine. Qed.
+Print Assumptions C19_polyfit_exact_affine.
+
+(* _interp_fcn: if every matched pair satisfies tsb = (1+d) tsa + o exactly and two
+   matched a-times differ, the reported slope ab[0] is d (drift_ppm = d*1e6) and
+   the returned map is x |-> (1+d) x + o everywhere — in linear mode always, in
+   interpolating mode when consecutive matched a-times are distinct (interp1d then
+   interpolates AND extrapolates along the line).
+   _partial: no jitter (with jitter the error is measured, not proved). *)
+Theorem C19_fitted_map_exact_partial :
+  forall (linear : bool) (tsa : list Q) (ib : list Z) (tsb : list Q) (d o : Q),
+  Forall (fun p => snd p == (1 + d) * fst p + o)%Q (matched tsa ib tsb) ->
+  (exists p q, In p (matched tsa ib tsb) /\ In q (matched tsa ib tsb) /\ ~ (fst p == fst q)%Q) ->
+  exists f s, interp_fcn linear tsa ib tsb = Some (f, s) /\ (s == d)%Q /\
+    (linear = true -> forall x, (apply_a2b f x == (1 + d) * x + o)%Q) /\
+    (linear = false ->
+       (forall p q r1 r2, matched tsa ib tsb = r1 ++ p :: q :: r2 -> ~ (fst q == fst p)%Q) ->
+       forall x, (apply_a2b f x == (1 + d) * x + o)%Q).
+Proof. exact interp_fcn_exact. Qed.
+Print Assumptions C19_fitted_map_exact_partial.
+
+(* the pieces `sync` is made of: the theorems below are about exactly these calls *)
+Theorem C19_sync_decomposes : forall linear den tbin delta tsa tsb r,
+  sync linear den tbin delta tsa tsb = Some r ->
+  let qa := map (tq den) tsa in
+  let qb := map (tq den) tsb in
+  sr_ib1 r = first_pass tbin delta tsa tsb /\
+  (exists f1 s1, interp_fcn linear qa (sr_ib1 r) qb = Some (f1, s1) /\
+                 sr_ib r = second_pass (tq den tbin) f1 qa qb (sr_ib1 r)) /\
+  interp_fcn linear qa (sr_ib r) qb = Some (sr_fcn r, sr_slope r).
+Proof. exact sync_decomposes. Qed.
+Print Assumptions C19_sync_decomposes.
+
+(* ------------------------------------------------------------------------- *)
+(* first pass                                                                 *)
+(* ------------------------------------------------------------------------- *)
+Open Scope Z_scope.
+
+(* unconditional: whichever branch assigns, the partner is a valid index of tsb
+   closer than tbin after removing the coarse offset *)
+Theorem C19_first_pass_within_threshold : forall thr delta tsa tsb m j,
+  (m < length tsa)%nat -> nth m (first_pass thr delta tsa tsb) (-1) = j -> 0 <= j ->
+  exists i, (i < length tsb)%nat /\ j = Z.of_nat i /\
+            Z.abs (nth m tsa 0 - delta - nth i tsb 0) < thr.
+Proof. exact first_pass_within. Qed.
+Print Assumptions C19_first_pass_within_threshold.
+
+(* Soundness.  Ground truth: event k occurred at tick t k; la m / lb j name the
+   event recorded as tsa[m] / tsb[j]; ea, eb bound the residual misalignment of
+   each series once delta has been removed (jitter + drift*time + error of delta);
+   distinct events are at least thr + ea + eb apart.  Then every pair assigned by
+   the first pass is a true correspondence.
+   _partial: assumes the coarse offset is good enough for these bounds to hold. *)
+Theorem C19_first_pass_sound_partial :
+  forall (thr delta ea eb : Z) (tsa tsb : list Z) (t : Z -> Z) (la lb : nat -> Z),
+  (forall m, (m < length tsa)%nat -> Z.abs (nth m tsa 0 - t (la m)) <= ea) ->
+  (forall j, (j < length tsb)%nat -> Z.abs (nth j tsb 0 + delta - t (lb j)) <= eb) ->
+  (forall k k', k <> k' -> thr + ea + eb <= Z.abs (t k - t k')) ->
+  forall m j, (m < length tsa)%nat ->
+    nth m (first_pass thr delta tsa tsb) (-1) = j -> 0 <= j ->
+    exists i, (i < length tsb)%nat /\ j = Z.of_nat i /\ la m = lb i.
 Proof.
-  exists 10%Z, 0%Z, wit_tsa, wit_tsb, 0%nat, 1%nat, 0%Z.
+  intros thr delta ea eb tsa tsb t la lb Ha Hb Hsep.
+  exact (first_pass_sound thr delta ea eb tsa tsb t la lb Ha Hb Hsep).
+Qed.
+Print Assumptions C19_first_pass_sound_partial.
+
+(* Completeness: under the same hypotheses, with ea + eb < thr and each event recorded
+   at most once in tsb, every a-event whose partner exists in tsb gets exactly it
+   (whatever was assigned before), and an a-event without partner stays at -1. *)
+Theorem C19_first_pass_complete_partial :
+  forall (thr delta ea eb : Z) (tsa tsb : list Z) (t : Z -> Z) (la lb : nat -> Z),
+  (forall m, (m < length tsa)%nat -> Z.abs (nth m tsa 0 - t (la m)) <= ea) ->
+  (forall j, (j < length tsb)%nat -> Z.abs (nth j tsb 0 + delta - t (lb j)) <= eb) ->
+  (forall k k', k <> k' -> thr + ea + eb <= Z.abs (t k - t k')) ->
+  (forall j j', (j < length tsb)%nat -> (j' < length tsb)%nat -> lb j = lb j' -> j = j') ->
+  forall m, (m < length tsa)%nat ->
+    (forall i, (i < length tsb)%nat -> la m = lb i -> ea + eb < thr ->
+       nth m (first_pass thr delta tsa tsb) (-1) = Z.of_nat i) /\
+    ((forall i, (i < length tsb)%nat -> la m <> lb i) ->
+       nth m (first_pass thr delta tsa tsb) (-1) = -1).
+Proof.
+  intros thr delta ea eb tsa tsb t la lb Ha Hb Hsep Hlb m Hm. split.
+  - intros i Hi. exact (first_pass_complete thr delta ea eb tsa tsb t la lb Ha Hb Hsep Hlb m i Hm Hi).
+  - exact (first_pass_lone thr delta ea eb tsa tsb t la lb Ha Hb Hsep m Hm).
+Qed.
+Print Assumptions C19_first_pass_complete_partial.
+
+(* "No event is paired twice": the exact truth.  It holds when a-events are at
+   least 2*tbin apart (true on the property's domain: spacing >= 0.5 s, tbin 0.1 s) ... *)
+Theorem C19_first_pass_injective_of_spacing : forall thr delta tsa tsb,
+  (forall m1 m2, (m1 < length tsa)%nat -> (m2 < length tsa)%nat -> m1 <> m2 ->
+     2 * thr <= Z.abs (nth m1 tsa 0 - nth m2 tsa 0)) ->
+  forall m1 m2 j, (m1 < length tsa)%nat -> (m2 < length tsa)%nat -> 0 <= j ->
+    nth m1 (first_pass thr delta tsa tsb) (-1) = j ->
+    nth m2 (first_pass thr delta tsa tsb) (-1) = j -> m1 = m2.
+Proof. exact first_pass_injective. Qed.
+Print Assumptions C19_first_pass_injective_of_spacing.
+
+(* ... and does NOT follow from the exclusion logic alone: with a single candidate
+   (`inds.size == 1`) the already-used partners are not consulted, so two a-events
+   closer than 2*tbin can both be paired with the same b-event
+   (tsa = 0, 0.05, 10.3, 20.7 s, tsb = 0.02, 10.3, 20.7 s, delta_t = 0, tbin = 0.1 s;
+   reproduced on the real function, see pC19.notes.md). *)
+Theorem C19_first_pass_injective_refuted :
+  exists thr delta tsa tsb m1 m2 j,
+    m1 <> m2 /\ 0 <= j /\
+    nth m1 (first_pass thr delta tsa tsb) (-1) = j /\
+    nth m2 (first_pass thr delta tsa tsb) (-1) = j.
+Proof.
+  exists 10, 0, wit_tsa, wit_tsb, 0%nat, 1%nat, 0.
   rewrite first_pass_dup_witness. cbn. repeat split; auto; discriminate.
 Qed.
 Print Assumptions C19_first_pass_injective_refuted.
+
+(* ------------------------------------------------------------------------- *)
+(* second pass (f = the map fitted after the first pass; any map here)        *)
+(* ------------------------------------------------------------------------- *)
+
+(* pairs of the first pass are kept *)
+Theorem C19_second_pass_keeps_first_pass : forall thr f tsa tsb ib, length ib = length tsa ->
+  forall i, (i < length ib)%nat -> 0 <= nth i ib (-1) ->
+    nth i (second_pass thr f tsa tsb ib) (-1) = nth i ib (-1).
+Proof. exact second_pass_keeps. Qed.
+Print Assumptions C19_second_pass_keeps_first_pass.
+
+(* a new pair joins an unassigned a-event with a b-event not used so far, at most tbin
+   away from the fitted map (note <=, the first pass uses <) *)
+Theorem C19_second_pass_new_pairs : forall thr f tsa tsb ib, length ib = length tsa ->
+  forall i, (i < length ib)%nat -> nth i ib (-1) < 0 ->
+    nth i (second_pass thr f tsa tsb ib) (-1) = nth i ib (-1) \/
+    exists k, nth i (second_pass thr f tsa tsb ib) (-1) = Z.of_nat k /\ (k < length tsb)%nat /\
+              ~ In (Z.of_nat k) ib /\
+              Qle_bool (qdist (apply_a2b f (nth i tsa 0%Q)) (nth k tsb 0%Q)) thr = true.
+Proof. exact second_pass_new. Qed.
+Print Assumptions C19_second_pass_new_pairs.
+
+(* unconditional injectivity of the second pass: a b-event given to a newly paired
+   a-event is given to no other a-event, old or new *)
+Theorem C19_second_pass_injective : forall thr f tsa tsb ib, length ib = length tsa ->
+  forall i1 i2 j, (i1 < length ib)%nat -> (i2 < length ib)%nat ->
+    nth i1 ib (-1) < 0 -> 0 <= j ->
+    nth i1 (second_pass thr f tsa tsb ib) (-1) = j ->
+    nth i2 (second_pass thr f tsa tsb ib) (-1) = j -> i1 = i2.
+Proof. exact second_pass_injective. Qed.
+Print Assumptions C19_second_pass_injective.
+
+(* the greedy loop runs to exhaustion: afterwards no unassigned a-event is within
+   tbin (through f) of an unused b-event *)
+Theorem C19_second_pass_maximal : forall thr f tsa tsb ib, length ib = length tsa ->
+  forall i k, (i < length ib)%nat -> (k < length tsb)%nat ->
+    nth i (second_pass thr f tsa tsb ib) (-1) < 0 ->
+    ~ In (Z.of_nat k) (second_pass thr f tsa tsb ib) ->
+    Qle_bool (qdist (apply_a2b f (nth i tsa 0%Q)) (nth k tsb 0%Q)) thr = false.
+Proof. exact second_pass_maximal. Qed.
+Print Assumptions C19_second_pass_maximal.
+
+(* with ground truth P i k ("tsa[i] and tsb[k] are the same event"): if only true
+   partners are within tbin of the fitted map, every new pair is a true
+   correspondence; if true partners are within tbin, then no true pair is left
+   with both members unpaired.
+   _partial: assumes the first fitted map is accurate to that extent. *)
+Theorem C19_second_pass_sound_complete_partial :
+  forall thr f tsa tsb ib (P : nat -> nat -> Prop), length ib = length tsa ->
+  ((forall i k, (i < length ib)%nat -> (k < length tsb)%nat ->
+      Qle_bool (qdist (apply_a2b f (nth i tsa 0%Q)) (nth k tsb 0%Q)) thr = true -> P i k) ->
+   forall i k, (i < length ib)%nat -> nth i ib (-1) < 0 ->
+     nth i (second_pass thr f tsa tsb ib) (-1) = Z.of_nat k -> P i k) /\
+  ((forall i k, (i < length ib)%nat -> (k < length tsb)%nat -> P i k ->
+      Qle_bool (qdist (apply_a2b f (nth i tsa 0%Q)) (nth k tsb 0%Q)) thr = true) ->
+   forall i k, (i < length ib)%nat -> (k < length tsb)%nat -> P i k ->
+     0 <= nth i (second_pass thr f tsa tsb ib) (-1) \/ In (Z.of_nat k) (second_pass thr f tsa tsb ib)).
+Proof.
+  intros thr f tsa tsb ib P Hlen. split.
+  - exact (second_pass_sound thr f tsa tsb ib Hlen P).
+  - exact (second_pass_complete thr f tsa tsb ib Hlen P).
+Qed.
+Print Assumptions C19_second_pass_sound_complete_partial.
+
+(* ------------------------------------------------------------------------- *)
+(* the hypotheses are satisfiable: a concrete train (ticks of 1 ms)           *)
+(* ------------------------------------------------------------------------- *)
+(* events at 0, 1, 3, 7, 12, 20, 200 s; clock b = 1.001 * a + 5 s (drift 1000 ppm so that
+   integer ticks stay exact); event 3 s missing from tsa, event 12 s missing from tsb;
+   coarse offset delta_t = -5.010 s, tbin = 0.1 s.  The 200 s event is 0.19 s off after
+   removing delta_t: missed by the first pass, recovered by the second. *)
+Definition ex_tsa : list Z := [0; 1000; 7000; 12000; 20000; 200000].
+Definition ex_tsb : list Z := [5000; 6001; 8003; 12007; 25020; 205200].
+
+Example ex_first_pass : first_pass 100 (-5010) ex_tsa ex_tsb = [0; 1; 3; -1; 4; -1].
+Proof. vm_compute. reflexivity. Qed.
+
+Example ex_sync_linear :
+  match sync true 1000 100 (-5010) ex_tsa ex_tsb with
+  | Some r => sr_ib r = [0; 1; 3; -1; 4; 5] /\
+              Qeq_bool (sr_slope r) (1 # 1000) = true /\
+              Qeq_bool (apply_a2b (sr_fcn r) (3 # 1)) (8003 # 1000) = true
+  | None => False
+  end.
+Proof. vm_compute. repeat split. Qed.
+
+Example ex_sync_interp :
+  match sync false 1000 100 (-5010) ex_tsa ex_tsb with
+  | Some r => sr_ib r = [0; 1; 3; -1; 4; 5] /\
+              Qeq_bool (sr_slope r) (1 # 1000) = true /\
+              Qeq_bool (apply_a2b (sr_fcn r) (3 # 1)) (8003 # 1000) = true /\
+              Qeq_bool (apply_a2b (sr_fcn r) (300 # 1)) (305300 # 1000) = true
+  | None => False
+  end.
+Proof. vm_compute. repeat split. Qed.
+
+(* the separation hypotheses of C19_first_pass_sound_partial hold for the first six events
+   with t k = k-th event time, ea = 0, eb = 20, thr = 100 *)
+Example ex_separation :
+  let t := fun k => nth (Z.to_nat k) [0; 1000; 3000; 7000; 12000; 20000] 0 in
+  forallb (fun p => Z.abs (nth (fst p) [5000; 6001; 8003; 12007; 25020] 0 + (-5010)
+                           - t (snd p)) <=? 20)
+          [(0%nat, 0); (1%nat, 1); (2%nat, 2); (3%nat, 3); (4%nat, 5)] = true.
+Proof. vm_compute. reflexivity. Qed.
